@@ -103,7 +103,6 @@ func (l *rateLimiter) AllowN(ctx context.Context, identifier string, n int64, op
 	}
 
 	bufs := rateBuffersPool.Get(0, 128)
-	defer rateBuffersPool.Put(bufs)
 
 	now := time.Now().UTC()
 
@@ -132,6 +131,11 @@ func (l *rateLimiter) AllowN(ctx context.Context, identifier string, n int64, op
 	arg3 := rueidis.BinaryString(bufs.keyBuf[offset:])
 
 	resp := rateLimitScript.Exec(ctx, l.client, []string{key, expiresAtKey}, []string{arg1, arg2, arg3})
+	if resp.NonRedisError() == nil {
+		// The strings of the command alias bufs. After a transport or context error the command may still be queued
+		// in the pipe, so the buffer goes back to the pool only when the server has answered.
+		defer rateBuffersPool.Put(bufs)
+	}
 	if err := resp.Error(); err != nil {
 		return Result{}, err
 	}
